@@ -163,7 +163,7 @@ package spynode
 //@     && handlersstorage.InvU(n.txs) && !held(n.txs.unconfirmedLock) && !held(n.txs.blockLock)
 
 //@ func (*Node).processUnconfirmedTx
-//@   serves C03 C05 C07
+//@   serves C03 C05 C07 C11
 //@   opt nomonitor = 1
 //@   opt partial = 1
 //@   opt abstract = AddTransaction TxTracker.Remove FetchTxState SaveTxState fetchSpentOutputs
